@@ -205,7 +205,7 @@ def run(tier, seed):
         vlib.absorb_replay(v, out2, ENGINE, part, crash_sig=crash_sig)
         _merge(out, out2)
     vlib.log("replayed %d pairs on the real diff in %.1fs" % (out.total, time.time() - t0))
-    if out.total != states:
+    if out.total != states and not out.truncated:
         raise vlib.Inconclusive("replayed %d of %d pairs" % (out.total, states))
     # (C)
     recfile = os.path.join(vlib.sub("scn"), "diff-rec.ndjson")
